@@ -164,12 +164,18 @@ pub enum Extra {
     Http10,
     Http09,
     Http2,
+    /// conditional requests naming what the server really holds: the version id of the client's
+    /// stored snapshot / latest version as an entity tag (strong, weak, in a list)
+    IfNoneMatchSnapshotVersion,
+    IfNoneMatchWeakList,
+    IfMatchSnapshotVersion,
+    IfNoneMatchLatest,
 }
 
 impl Extra {
     pub fn all() -> Vec<Extra> {
         use Extra::*;
-        vec![AcceptEncodingGzip, AcceptEncodingNothing, AcceptEncodingStarZero, AcceptEncodingUnknownOnly, AcceptJson, AcceptNothing, Range, IfNoneMatchStar, IfMatchStar, IfModifiedSince, ConnectionUpgrade, ContentEncodingGzip, Http10, Http09, Http2]
+        vec![AcceptEncodingGzip, AcceptEncodingNothing, AcceptEncodingStarZero, AcceptEncodingUnknownOnly, AcceptJson, AcceptNothing, Range, IfNoneMatchStar, IfMatchStar, IfModifiedSince, ConnectionUpgrade, ContentEncodingGzip, Http10, Http09, Http2, IfNoneMatchSnapshotVersion, IfNoneMatchWeakList, IfMatchSnapshotVersion, IfNoneMatchLatest]
     }
     fn header(&self) -> Option<(&'static str, &'static str)> {
         use Extra::*;
@@ -190,6 +196,8 @@ impl Extra {
             Http10 => (":version", "1.0"),
             Http09 => (":version", "0.9"),
             Http2 => (":version", "2"),
+            // (value filled in by `build` from the live state)
+            IfNoneMatchSnapshotVersion | IfNoneMatchWeakList | IfMatchSnapshotVersion | IfNoneMatchLatest => return Option::None,
         })
     }
 }
@@ -274,6 +282,9 @@ pub struct Ctx {
     pub latest_a: Uuid,
     pub latest_b: Uuid,
     pub fresh: Uuid,
+    /// versions the stored snapshots of A and B are for (nil on an empty server)
+    pub snap_a: Uuid,
+    pub snap_b: Uuid,
 }
 
 fn spell(u: Uuid, f: CidForm) -> Vec<Vec<u8>> {
@@ -363,6 +374,19 @@ pub fn build(d: &Dim, ctx: &Ctx) -> HttpReq {
     }
     if let Some((k, v)) = d.extra.header() {
         headers.push((k.into(), v.as_bytes().to_vec()));
+    }
+    {
+        let snap = match d.cid {
+            CidForm::KnownB | CidForm::DuplicateBFirst => ctx.snap_b,
+            _ => ctx.snap_a,
+        };
+        match d.extra {
+            Extra::IfNoneMatchSnapshotVersion => headers.push(("If-None-Match".into(), format!("\"{snap}\"").into_bytes())),
+            Extra::IfNoneMatchWeakList => headers.push(("If-None-Match".into(), format!("\"other\", W/\"{snap}\"").into_bytes())),
+            Extra::IfMatchSnapshotVersion => headers.push(("If-Match".into(), format!("\"{snap}\"").into_bytes())),
+            Extra::IfNoneMatchLatest => headers.push(("If-None-Match".into(), format!("\"{latest}\"").into_bytes())),
+            _ => {}
+        }
     }
     let body = match d.body {
         BodyForm::None => Body::Empty,
@@ -466,6 +490,8 @@ fn build_live(p: &GrammarParams, empty: bool) -> Live {
         latest_a: la,
         latest_b: lb,
         fresh: det_uuid(p.seed, 5, 2),
+        snap_a: if empty { Uuid::nil() } else { s.tab.uuid(2) },
+        snap_b: if empty { Uuid::nil() } else { s.tab.uuid(4) },
     };
     let files = if p.spec.is_sql() { Some(s.sut.save_files()) } else { None };
     let dump = full_dump(&s, &ctx);
@@ -532,7 +558,7 @@ pub fn dims(p: &GrammarParams) -> Vec<Dim> {
     // foreign method x {known, absent, unseen, malformed id} x right content type and one body
     for route in routes {
         for method in [route.method(), if route.method() == "GET" { "POST" } else { "GET" }] {
-            for cid in [CidForm::Known, CidForm::Absent, CidForm::Unseen, CidForm::NonHex] {
+            for cid in [CidForm::Known, CidForm::KnownB, CidForm::Absent, CidForm::Unseen, CidForm::NonHex] {
                 for extra in Extra::all() {
                     out.push(Dim { route, method, cid, pid: PidForm::Latest, ct: CtForm::Right, body: if method == "POST" { BodyForm::Multi } else { BodyForm::None }, extra });
                 }
